@@ -3,6 +3,7 @@
  */
 
 #include <string.h>
+#include <float.h> /* for FLT_MAX */
 #include <strings.h> /* for strcasecmp() */
 
 #include "types.h"
@@ -67,7 +68,12 @@ static int setPosition(float *val, MPT_INTERFACE(convertable) *src)
 	if ((len = src->_vptr->convert(src, 'd', &tmp)) >= 0) {
 		if (!len) {
 			*val = 0.0f;
-		} else {
+		}
+		/* finite value outside of float range */
+		else if (tmp > FLT_MAX || tmp < -FLT_MAX) {
+			return MPT_ERROR(BadValue);
+		}
+		else {
 			*val = tmp;
 		}
 		return 0;
